@@ -313,7 +313,7 @@ pub fn spell(p: &P, st: &Style) -> String {
 /// whole-pattern flag: `(?i:P)` vs `(?i)P` (both spellings built from the base printer)
 fn flag_spellings(p: &P) -> Vec<(String, String)> {
     let base = spell(p, &BASE);
-    vec![
+    let v = vec![
         (format!("(?i:{})", base), format!("(?i){}", base)),
         (format!("(?s:{})", base), format!("(?s){}", base)),
         (format!("(?m:{})", base), format!("(?m){}", base)),
@@ -323,7 +323,48 @@ fn flag_spellings(p: &P) -> Vec<(String, String)> {
         (format!("(?m:{})", base), format!("(?m:{})", base.replace("\\z", "(?-m:$)").replace("\\A", "(?-m:^)"))),
         (format!("(?m)a\\z|{}", base), format!("(?m)a(?-m:$)|{}", base)),
         (format!("(?m)\\A{}", base), format!("(?m)(?-m:^){}", base)),
-    ]
+    ];
+    // a respelling must stay equivalent under every flag: escapes under (?i), possessive vs atomic under (?U), ...
+    let mut v = v;
+    for st in styles() {
+        if st.free || st.comment || !(st.escapes || st.poss_atomic) {
+            continue;
+        }
+        let alt = spell(p, &st);
+        if alt == base {
+            continue;
+        }
+        for fl in ["i", "U", "iU", "s", "m", "x"] {
+            if fl == "m" && st.escapes {
+                continue; // the escapes style writes `^`/`$` as `\A`/`\z`, which is the same only without (?m)
+            }
+            v.push((format!("(?{}){}", fl, base), format!("(?{}){}", fl, alt)));
+            v.push((format!("(?{}:{})", fl, base), format!("(?{}:{})", fl, alt)));
+        }
+    }
+    v
+}
+
+/// the case-insensitivity mark is meaningless on content without case: a literal made of caseless
+/// characters, the hex-digit class (closed under case). Normalise it away before comparing trees of
+/// spellings that sit under `(?i)`.
+fn norm_casei(tree: &str) -> String {
+    tree.split(' ')
+        .map(|tok| {
+            let f: Vec<&str> = tok.split(':').collect();
+            if f.len() == 3 && f[0] == "lit" {
+                let caseless = crate::wire::unhex(f[1]).chars().all(|c| c.to_lowercase().eq(c.to_uppercase()));
+                if caseless {
+                    return format!("lit:{}:0", f[1]);
+                }
+            }
+            if f.len() == 4 && f[0] == "del" && f[1] == "5b302d39412d46612d665d" {
+                return format!("del:{}:{}:0", f[1], f[2]);
+            }
+            tok.to_string()
+        })
+        .collect::<Vec<_>>()
+        .join(" ")
 }
 
 fn tree_of(p: &str) -> Option<(String, String)> {
@@ -438,6 +479,11 @@ pub fn run_c19(cfg: &Cfg) {
             s.count("respellings");
             let ta = if a == base { base_tree.clone() } else { tree_of(&a) };
             let tb = tree_of(&b);
+            let (ta, tb) = if name == "flag-scope" {
+                (ta.map(|(t, b)| (norm_casei(&t), b)), tb.map(|(t, b)| (norm_casei(&t), b)))
+            } else {
+                (ta, tb)
+            };
             let is_err = |t: &Option<(String, String)>| t.as_ref().map(|x| x.0.starts_with("parse:") || x.0.starts_with("err:")).unwrap_or(true);
             if is_err(&ta) || is_err(&tb) {
                 // both must fail alike (kind), otherwise one spelling is rejected
